@@ -77,6 +77,7 @@ def integrator_opts(rng, integ, nondefault_p=0.7, allow_unsafe=True, var=False):
             if rng.chance(0.5):
                 o["ri_whfast.keep_unsynchronized"] = 1
     elif integ == "saba":
+        o["ri_whfast.coordinates"] = 0      # SABA requires Jacobi coordinates
         o["ri_saba.type"] = rng.choice(SABA_TYPES) if nd() else 0x6
         if allow_unsafe and nd():
             o["ri_saba.safe_mode"] = 0
@@ -108,7 +109,7 @@ def integrator_opts(rng, integ, nondefault_p=0.7, allow_unsafe=True, var=False):
         if nd():
             o["ri_bs.eps_abs"] = rng.choice([1e-8, 1e-6, 1e-10])
             o["ri_bs.eps_rel"] = rng.choice([1e-8, 1e-6, 1e-10])
-            o["ri_bs.min_dt"] = rng.choice([0.0, 1e-5])
+            o["ri_bs.min_dt"] = 0.0   # a non-zero min_dt can make BS retry a rejected step forever (observed; outside the listed properties)
             o["ri_bs.max_dt"] = rng.choice([0.0, 0.5])
     elif integ == "janus":
         if nd():
@@ -132,9 +133,9 @@ def gen_planetary_config(rng, integrators=None, nmin=2, nmax=7, allow_unsafe=Tru
     ps = planetary(rng, n, G=G, close=close, radii=radii)
     cfg = dict(integrator=integ, G=G, particles=ps, gravity="basic", collision="none", boundary="none", opts={})
     var = False
-    if allow_var and integ in ("ias15", "whfast", "bs", "leapfrog", "eos", "saba", "janus") and rng.chance(0.2):
+    if allow_var and integ in ("ias15", "whfast", "bs", "leapfrog") and rng.chance(0.2):
         # only combinations the code accepts
-        if integ in ("ias15", "bs", "leapfrog", "eos"):
+        if integ in ("ias15", "bs", "leapfrog"):
             var = True
             cfg["var"] = [dict(order=1, tp=-1)]
             if rng.chance(0.4) and integ != "bs":
@@ -145,7 +146,7 @@ def gen_planetary_config(rng, integrators=None, nmin=2, nmax=7, allow_unsafe=Tru
         elif integ == "whfast":
             var = True
             cfg["var"] = [dict(order=1, tp=-1)]
-    if allow_var and not var and integ in ("ias15", "whfast", "leapfrog", "eos") and rng.chance(0.12):
+    if allow_var and not var and integ in ("ias15", "whfast", "leapfrog") and rng.chance(0.12):
         cfg["megno"] = True
         var = True
     cfg["opts"] = integrator_opts(rng, integ, allow_unsafe=allow_unsafe, var=var)
@@ -153,9 +154,9 @@ def gen_planetary_config(rng, integrators=None, nmin=2, nmax=7, allow_unsafe=Tru
     cfg["dt"] = period * rng.choice([1 / 20, 1 / 37.3, 1 / 60, 1 / 100, 1 / 13.7])
     if integ in ("ias15", "bs"):
         cfg["dt"] = period * rng.choice([1e-2, 1e-3, 0.05])
-    if rng.chance(0.15):
+    if rng.chance(0.15) and integ != "trace":      # TRACE does not support backward integration (documented TODO in the source)
         cfg["dt"] = -cfg["dt"]
-    if integ in ("ias15", "leapfrog", "bs", "none") and rng.chance(0.25):
+    if integ in ("ias15", "leapfrog", "bs", "none") and not var and rng.chance(0.25):
         cfg["gravity"] = rng.choice(["compensated", "basic"])
     if allow_tp and n >= 3 and not var and integ not in ("janus",) and rng.chance(0.3):
         cfg["N_active"] = rng.randint(1, n - 1)
